@@ -9,7 +9,6 @@ import subprocess
 import sys
 import time
 import traceback
-from concurrent.futures import ProcessPoolExecutor
 
 VERIF = os.path.dirname(os.path.dirname(os.path.abspath(__file__)))
 REPO = os.environ.get("INDIPY_REPO", "/repo")
@@ -55,48 +54,112 @@ def confirm(ob, spec):
             ob.verdict = "refuted"
             return out
     if ob.formulas is not None:
-        assumed, goal = ob.formulas
-        s = z3.Solver()
-        s.set("timeout", 30000)
-        s.add(assumed)
-        s.add(z3.Not(goal))
-        t0 = time.time()
-        r = s.check()
-        out["full_solver"] = {"result": str(r), "seconds": round(time.time() - t0, 2)}
-        if r == z3.sat and ob.witness_fn is not None and spec.replay_kind:
-            # witness from the complete solver's model (smallest first), replayed natively
-            m = s.model()
-            for bound in (2, 4):
-                if not ob.minimize:
-                    break
-                s.push()
-                for t in ob.minimize:
-                    s.add(t <= bound)
-                s.set("timeout", 5000)
-                if s.check() == z3.sat:
-                    m = s.model()
-                    s.pop()
-                    break
-                s.pop()
-            try:
-                w2 = ob.witness_fn(m)
-            except Exception as e:
-                w2 = {"witness_error": repr(e)}
-            if w2 and "witness_error" not in w2 and not w2.get("too_large"):
-                r2 = native_replay(w2.get("replay_kind", spec.replay_kind), w2, spec.python)
-                out["replay_full_model"] = r2
-                if r2.get("reproduced"):
-                    ob.witness = w2
-                    out["replay"] = r2
-        if r == z3.unsat:
-            ob.verdict = "discharged"
-            ob.note = (ob.note or "") + " [discharged by z3 with MBQI after an E-matching candidate]"
-        elif r == z3.sat:
-            ob.verdict = "refuted"
-        else:
+        res = forked(lambda: _full_solve(ob, spec), 45)
+        if res is None:
+            out["full_solver"] = {"result": "killed after 45s (z3 ignored its timeout)"}
             ob.verdict = "undecided"
-            ob.note = "candidate counter-model not reproduced natively and complete solver run: %s" % s.reason_unknown()
+            ob.note = "candidate counter-model not reproduced natively; complete solver run killed after 45s"
+        else:
+            out.update(res["out"])
+            ob.verdict = res["verdict"]
+            if res.get("note"):
+                ob.note = res["note"]
+            if res.get("witness") is not None:
+                ob.witness = res["witness"]
     return out
+
+
+def forked(fn, seconds):
+    """Run fn() in a forked child with a hard wall-clock limit; returns its
+    JSON-able result or None when it had to be killed."""
+    import pickle
+    import signal
+    r, w = os.pipe()
+    pid = os.fork()
+    if pid == 0:
+        code = 0
+        try:
+            os.close(r)
+            data = pickle.dumps(fn())
+            with os.fdopen(w, "wb") as fh:
+                fh.write(data)
+        except BaseException:
+            code = 1
+        os._exit(code)
+    os.close(w)
+    import select
+    buf = b""
+    deadline = time.time() + seconds
+    with os.fdopen(r, "rb") as fh:
+        while True:
+            left = deadline - time.time()
+            if left <= 0:
+                break
+            rl, _, _ = select.select([fh], [], [], left)
+            if not rl:
+                break
+            chunk = os.read(fh.fileno(), 1 << 16)
+            if not chunk:
+                break
+            buf += chunk
+    try:
+        os.kill(pid, signal.SIGKILL)
+    except ProcessLookupError:
+        pass
+    os.waitpid(pid, 0)
+    if not buf:
+        return None
+    try:
+        return pickle.loads(buf)
+    except Exception:
+        return None
+
+
+def _full_solve(ob, spec):
+    import z3
+    out = {}
+    res = {"out": out, "verdict": ob.verdict, "note": ob.note, "witness": None}
+    assumed, goal = ob.formulas
+    s = z3.Solver()
+    s.set("timeout", 30000)
+    s.add(assumed)
+    s.add(z3.Not(goal))
+    t0 = time.time()
+    r = s.check()
+    out["full_solver"] = {"result": str(r), "seconds": round(time.time() - t0, 2)}
+    if r == z3.sat and ob.witness_fn is not None and spec.replay_kind:
+        m = s.model()
+        for bound in (2, 4):
+            if not ob.minimize:
+                break
+            s.push()
+            for t in ob.minimize:
+                s.add(t <= bound)
+            s.set("timeout", 5000)
+            if s.check() == z3.sat:
+                m = s.model()
+                s.pop()
+                break
+            s.pop()
+        try:
+            w2 = ob.witness_fn(m)
+        except Exception as e:
+            w2 = {"witness_error": repr(e)}
+        if w2 and "witness_error" not in w2 and not w2.get("too_large"):
+            r2 = native_replay(w2.get("replay_kind", spec.replay_kind), w2, spec.python)
+            out["replay_full_model"] = r2
+            if r2.get("reproduced"):
+                res["witness"] = w2
+                out["replay"] = r2
+    if r == z3.unsat:
+        res["verdict"] = "discharged"
+        res["note"] = (ob.note or "") + " [discharged by z3 with MBQI after an E-matching candidate]"
+    elif r == z3.sat:
+        res["verdict"] = "refuted"
+    else:
+        res["verdict"] = "undecided"
+        res["note"] = "candidate counter-model not reproduced natively and complete solver run: %s" % s.reason_unknown()
+    return res
 
 
 def run_task(spec):
@@ -135,12 +198,57 @@ def run_task(spec):
     return res
 
 
-def run_tasks(specs, workers=None):
-    workers = workers or min(16, max(1, len(specs)))
-    if workers == 1 or os.environ.get("PYVC_SERIAL"):
+def _task_child(spec, path):
+    import pickle
+    res = run_task(spec)
+    with open(path, "wb") as fh:
+        pickle.dump(res, fh)
+
+
+def run_tasks(specs, workers=None, hard_limit=900):
+    """Run tasks in child processes (at most `workers` at a time) with a hard
+    wall-clock limit each: a solver that ignores its timeout cannot hang the check."""
+    import multiprocessing as mp
+    import pickle
+    import tempfile
+    workers = workers or 16
+    if os.environ.get("PYVC_SERIAL"):
         return [run_task(s) for s in specs]
-    with ProcessPoolExecutor(max_workers=workers) as ex:
-        return list(ex.map(run_task, specs))
+    tmp = tempfile.mkdtemp(prefix="pyvc-")
+    ctx = mp.get_context("fork")
+    pending = list(enumerate(specs))
+    running = {}
+    results = [None] * len(specs)
+    try:
+        while pending or running:
+            while pending and len(running) < workers:
+                k, sp = pending.pop(0)
+                path = os.path.join(tmp, "r%d.pkl" % k)
+                p = ctx.Process(target=_task_child, args=(sp, path))
+                p.start()
+                running[k] = (p, path, time.time(), sp)
+            time.sleep(0.05)
+            for k in list(running):
+                p, path, t0, sp = running[k]
+                if not p.is_alive():
+                    p.join()
+                    try:
+                        with open(path, "rb") as fh:
+                            results[k] = pickle.load(fh)
+                    except Exception as ex:
+                        results[k] = {"task": sp.name, "obligations": [], "covers": [], "out_of_reach": [], "paths": 0,
+                                      "errors": [{"task": sp.name, "error": "worker died without a result (exit %s): %r" % (p.exitcode, ex)}]}
+                    del running[k]
+                elif time.time() - t0 > hard_limit:
+                    p.kill()
+                    p.join()
+                    results[k] = {"task": sp.name, "obligations": [], "covers": [], "paths": 0, "errors": [],
+                                  "out_of_reach": [{"task": sp.name, "what": "task killed after the hard limit of %ds (solver ignored its timeout)" % hard_limit}]}
+                    del running[k]
+    finally:
+        import shutil
+        shutil.rmtree(tmp, ignore_errors=True)
+    return results
 
 
 def props_of(name):
@@ -280,7 +388,11 @@ class Check:
                     known_hits.append((hit[0], ob))
                 else:
                     violations.append(ob)
-        canary_bad = [c for c in self.canaries if not c["ok"]]
+        groups = {}
+        for c in self.canaries:
+            groups.setdefault(c["name"], []).append(c)
+        # a canary (deliberately false claim) must be unprovable on at least one path
+        canary_bad = [{"name": k, "ok": False} for k, v in groups.items() if not any(c["ok"] for c in v)]
         if self.require_canary and not self.canaries:
             canary_bad = [{"name": "no canary obligation was generated", "ok": False}]
         n_obl = len(self.obligations)
@@ -341,7 +453,7 @@ class Check:
                 "known_findings_hit": [f["id"] for f, _ in known_hits],
                 "covers": {"total": len(self.covers), "reachable_or_not_refuted": sum(1 for c in self.covers if c[1] != "unsat"),
                            "unreachable": [c for c in self.covers if c[1] == "unsat"][:20]},
-                "canaries": {"total": len(self.canaries), "refuted_as_expected": sum(1 for c in self.canaries if c["ok"]),
+                "canaries": {"total": len(groups), "refuted_as_expected": len(groups) - len(canary_bad),
                              "samples": self.canaries[:3]},
                 "out_of_reach": self.out_of_reach[:30],
                 "bounded_standins": [{k: v for k, v in s.items() if k != "failures"} | {"failures": len(s.get("failures", []))} for s in self.standins],
